@@ -298,7 +298,9 @@ def check_bare(gen: int, pat, interval: float, timeout: float, stats: Stats | No
         rig.dispose()
 
 
-CONFIGS = [(300.0, 330.0), (60.0, 66.0), (8.0, 12.0), (100.0, 250.0), (16.0, 16.5)]
+# (interval, timeout) pairs; interval / 300 is a power of two so that every scaled delay stays a dyadic rational
+# (exact float arithmetic: a response and a deadline coincide exactly or not at all)
+CONFIGS = [(300.0, 330.0), (150.0, 165.0), (75.0, 82.5), (37.5, 41.25), (600.0, 660.0), (75.0, 112.5), (150.0, 300.125), (37.5, 38.0)]
 
 
 def shards(tier: str):
